@@ -10,7 +10,13 @@ versus splipy.splinemodel / splipy.io.ofoam on whole model histories (`c18_model
   * `faces()`                : rows (vertex cycle up to rotation, owner, neighbour, name) as a sorted table,
   * `OpenFOAM.write`         : files `faces/owner/neighbour/boundary` written to a temp dir and parsed back:
                                row ORDER, `nFaces/startFace` entries, declared patch count, the `note` numbers,
-  * `IFEMWriter.connections()` as a sorted list.
+  * `IFEMWriter.connections()` as a sorted list,
+  * `plans`: ownership of every codimension-1 section of every top node (owned?, position of the owning top
+    node, the orientation `read_cp_numbers` computes) read off the REAL nodes, against the history-level
+    statement `plansOfObjs` of the model (the function the Lean theorems and the kernel-evaluated witnesses
+    use), plus the model-internal check that the catalogue-derived plans equal `plansOfObjs`.
+Refinement levels: patches of one complex carry 2, 3 or 5 control points per direction on a common lattice
+(level 0-3) — what `refine(n)` on all patches yields — generated directly (exact dyadic coordinates).
 
 Oracle (model independent): control points of all patches grouped by quantised coordinates — same global
 number <=> same geometric point, numbers exactly 0..ncps-1, `cps()[number]` = coordinates; cell numbers
